@@ -3,7 +3,7 @@ harness from /repo's working tree, run operation lists through the real code and
 Lean model, compare, shrink, write evidence.  Standard library only."""
 import fcntl, glob, hashlib, json, os, random, re, shutil, subprocess, sys, tempfile, time
 
-ROOT = '/verif'
+ROOT = os.environ.get('VERIF_ROOT') or os.path.dirname(os.path.dirname(os.path.abspath(__file__)))
 LEAN = ROOT + '/lean'
 BUILD = ROOT + '/.build'
 REPO = '/repo'
